@@ -9,6 +9,7 @@ mod s_rice;
 mod s_src;
 mod s_cfg;
 mod s_parse;
+mod s_par;
 
 use std::io::{BufRead, Write};
 
@@ -28,6 +29,7 @@ fn run_line(line: &str) -> String {
         "SRC" => s_src::run(&idc, &restc),
         "CFG" => s_cfg::run(&idc, &restc),
         "PARSE" => s_parse::run(&idc, &restc),
+        "PAR" => s_par::run(&idc, &restc),
         _ => format!("{} unknown-stream", idc),
     });
     match r { Ok(s) => s, Err(_) => format!("{} panic", id) }
@@ -51,6 +53,7 @@ fn main() {
                 "SRC" => s_src::gen(seed, n, &mut out),
                 "CFG" => s_cfg::gen(seed, n, &mut out),
                 "PARSE" => s_parse::gen(seed, n, &mut out),
+                "PAR" => s_par::gen(seed, n, &mut out),
                 _ => panic!("unknown stream"),
             }
             print!("{}", out);
